@@ -289,6 +289,15 @@ func (ex *Exec) havocLvalue(st *State, fr *Frame, env *SpecEnv, m Clause, pos to
 			continue
 		}
 		if loc.arr != nil {
+			anyClass := false
+			for class, srt := range classSorts {
+				if classMatches(class, loc.class) && srt.Kind == KArr && srt.Elem.Kind == KArr {
+					anyClass = true
+				}
+			}
+			if !anyClass {
+				st.HavPrefix = append(st.HavPrefix, loc.class)
+			}
 			for class, srt := range classSorts {
 				if classMatches(class, loc.class) && srt.Kind == KArr && srt.Elem.Kind == KArr {
 					h := st.heapGet(class, srt)
@@ -311,7 +320,11 @@ func (ex *Exec) havocLvalue(st *State, fr *Frame, env *SpecEnv, m Clause, pos to
 				touched = true
 			}
 		}
-		_ = touched
+		if !touched {
+			// the class has not been read yet on this path: whoever reads it first after this call must
+			// not see the pre-call heap
+			st.HavPrefix = append(st.HavPrefix, loc.class)
+		}
 		// caller frame: the callee's footprint must be inside the caller's
 		top := ex.topFrame(st)
 		if top.Spec != nil && (!top.Spec.ModAll || isGhostClass(loc.class)) && ex.pure == nil && !st.Fresh[loc.ref] && !ex.isGhostLocalClass(loc.class) {
